@@ -646,6 +646,8 @@ def check_c19(prop, tier, replay, selftest):
         res.add_mc(require_mc(tlc_mc("Frontend", "Frontend_9.cfg", workers=12, timeout=2400)))
     # unbounded: TLAPS proves PrefixInv /\ FoundRule inductive for any stream length and interleaving (same Frontend.tla)
     res.extra["tlaps"] = tlaps_proof("FrontendProof")
+    # ... and, with the last store dropped at any moment (FrontendHangup!SpecH, the code's push-then-forward order), the relay still mirrors the producer
+    res.extra["tlaps_hangup"] = tlaps_proof("FrontendHangupProof")
     tr = tlc_trace("Trace_Frontend", out)
     res.add_trace(tr)
     # the same workload (reduced) on a build with the frontend feature ALONE: the streaming code is interleaved with feature-gated
